@@ -118,9 +118,32 @@ def run(ck, m):
             # argument = the selection about to be replaced
             prev = any(any(s[0] == 'f' and s[2] == 'name' and s[3].endswith('bo::SelectedDatabase') for s in r[-1])
                        or r[0] == 'call' for a in d.term(bi)['args'][:1] for r in origins(d, a))
+            # the decrement may be skipped only when there was no previous selection / the database is gone:
+            # every branch on the way to it that can bypass it is a test of an Option discriminant
+            bypass = []
+            if hdec:
+                reach_dec = {x for x in hb.reachable() if hdec[0] in hb.reach_from([x], include_start=True)}
+                for x in sorted(hb.reachable()):
+                    tx = hb.term(x)
+                    if tx['k'] != 'switch' or not hb.dominates(x, hdec[0]):
+                        continue
+                    succ = [tb for _, tb in tx['targets']] + [tx['else']]
+                    if all(s_ in reach_dec for s_ in succ):
+                        continue
+                    kinds = set()
+                    for r in origins(hb, tx['o']):
+                        if r[0] == 'discr':
+                            kinds.add(hb.blocks[r[1]]['s'][r[2]]['r']['adt'])
+                        else:
+                            kinds.add(r[0])
+                    if kinds != {'std::option::Option'}:
+                        bypass.append((hb.loc(x), sorted(kinds)))
+            ok = ok and not bypass
             ck.ob('C17.a', short(hb.id), 'decrement-then-mirror', ok and prev,
                   'decrements the previously selected database and mirrors it' if ok and prev else
-                  'helper decrements=%s mirrors-after=%s previous-selection-arg=%s' % (bool(hdec), ok, prev), hb.loc(hdec[0]) if hdec else '')
+                  'helper decrements=%s mirrors-after=%s previous-selection-arg=%s; conditions other than "there was a previous '
+                  'selection and its database exists" that skip the decrement: %s — the connection counted for the previous selection '
+                  'is never given back' % (bool(hdec), ok, prev, bypass), hb.loc(hdec[0]) if hdec else '')
     # session end: Client::left
     left = [b for b in P.user_bodies() if b.id.endswith('bo::Client::left')]
     if len(left) != 1:
